@@ -1565,6 +1565,18 @@ def r03_2_registered_only(ctx):
         r.check(ok, 'descent into registered classes whose __bases__ contain the expected class',
                 f.key('descent-source'), f.loc(c), 'subclass candidates are not drawn from '
                 'self.__registered_classes.values() filtered by `expected in other.__bases__`')
+        if ok:
+            # ... and into *every* such class: any further condition inside the loop (a visited set, a name filter) takes candidates
+            # away. A class below two registered classes (diamond) must be tried below each of them - the parent that is not allowed
+            # to see it match falls back to itself, and the position becomes ambiguous where the class alone is the answer.
+            from .helpers_rules import _inloop_atoms
+            want = f.alpha.atom(ast.parse('%s in %s.__bases__' % (et, ov), mode='eval').body, True)
+            extra = sorted(a for a in _inloop_atoms(f, c, lo) if a != want)
+            r.check(not extra, 'the descent is restricted by the __bases__ test only (no visited set: a class below two registered '
+                    'classes is tried below each)', f.key('descent-every-subclass'), f.loc(c),
+                    'the descent into a registered subclass also depends on %s: a subclass that is skipped (already visited through '
+                    'another parent of a diamond, filtered by name ...) does not shadow this parent, which then matches itself - the '
+                    'position is reported ambiguous or resolved to the less derived class' % extra)
     bad = []
     for fi in P.yatiml_functions():
         for n in walk_function(fi.node):
